@@ -6,15 +6,35 @@ proof side : lean/Heph/Props/C12.lean — for the MODELLED languages (registry h
              Groovy (lean/Heph/Props/C12Groovy.lean, imported by C12.lean; text model of C11, no tagged document):
              `Groovy.var_annot_local/global`, `Groovy.ret_annot_method/closure`, `Groovy.call_targs_never_printed`,
              `Groovy.new_targs_iff`, counterexamples `Groovy.var_annot_iff_counterexample`, `Groovy.ret_annot_iff_…`.
+             `doc_pieces_partial` (+ counterexample), `annot_iff_*`, `annot_var/ret/targs_text` (the printed annotation
+             is the NAME of the carried type), `literals_ops_present`, `balanced_partial`.
 tie to code: real pipeline runs (stages gen, erase, overwrite), every program translated by the REAL translators
-             of all four languages (fresh translator, package "src.pkg").  Per (program, stage):
+             of all four languages, package "src.pkg": by a FRESH translator object per text AND (harness/c12_plugin.py,
+             inside the worker) by ONE object per language kept across gen -> erase -> overwrite, as
+             hephaestus.gen_program uses it (TypeErasure / TypeOverwriting mutate the program and shared type
+             objects in place); a reused object's text that differs from the fresh one's is judged by S1-S3 too.
+             Extra TypeOverwriting rounds (c12_plugin: pickle copy of the gen- / erase-stage program, translate,
+             mutate, translate again with the same objects; the site is TypeOverwriting's own random choice,
+             nothing is steered) are judged in the worker by S1 + S3; a stream of small programs (max_depth 3) makes
+             the number of overwritten sites useful within the budget.  Evidence: `overwrite_sites` (which
+             declaration was overwritten: var_type / ret_type / new_type_argument / call_type_argument, per
+             source), `overwrite_sites_compared` (per language), `type_names_compared`.  Per (program, stage):
                specification side, from the export of the IR alone (harness/c12_scan.py, Python):
                    INV  = inventory(export)       declarations / annotations the program carries, print order
                    LIT  = literals(export)        literals and operators, print order
                the code's answers judged against it directly, for ALL FOUR languages:
-               (S1) scan(lang, real text) == expected(lang, INV): a token-level recount of the declarations in the
-                    real text (per language the tags in c12_scan.SCANNED; Kotlin/Scala in order with modifiers and
-                    "annotation printed iff the program carries it"; Java/Groovy classes and fields only)
+               (S1) scan(lang, real text) == expected(lang, INV, export): a token-level recount of the declarations in
+                    the real text with the NAMES of the printed types (per language the tags in c12_scan.SCANNED).
+                    The expected type text is `c12_scan.type_text`, a renderer written from the languages' naming
+                    rules and computed from the export alone (boxing, `? extends`/`out`/`? <:`, arrays; exact on the
+                    unchanged tree).  Kotlin/Scala: in order, with modifiers, "annotation printed iff the program
+                    carries it" and its text = the carried type (variables, return types, parameters, fields,
+                    bounds + variance, super clauses, explicit type arguments of calls and of `new`).  Java/Groovy:
+                    multiset by (tag, name): classes, type parameters + bounds, super clauses, fields, methods with
+                    return type, parameters (methods, lambdas, closures), variables incl. nested functions
+                    (`FunctionN<…> f = (a) -> …` / `def|Closure<T> f = { … }`), `new` with type arguments or `<>`;
+                    IF the program carries a declared type the printed type IS it; where it carries none, Java (and
+                    Groovy for globals / methods) prints a type anyway (recorded findings): any type accepted, counted
                (S2) the string and char literals of the real text are exactly those of LIT (Kotlin/Scala: in order)
                (S3) () [] {} are balanced in the real text outside string / char literals
                Groovy only (harness/c12_groovy.py): (G1) the names printed as `def NAME = ` are exactly the local
@@ -53,14 +73,25 @@ STAGES = ["gen", "erase", "overwrite"]
 DECL_TAGS = ["class", "tparam", "field", "func", "param", "var", "super", "varannot", "retannot", "targs", "new"]
 
 
-def make_specs(rng, n, cap, depths):
+PLUGIN = "c12_plugin"
+ROUNDS_QUICK = {"gen": 2, "erase": 2, "more": 3, "budget_s": 10}
+ROUNDS_SMALL_QUICK = {"gen": 3, "erase": 3, "more": 4, "budget_s": 12}
+ROUNDS_THOROUGH = {"gen": 3, "erase": 4, "more": 6, "budget_s": 40}
+SITE_KINDS = ("var_type", "ret_type", "new_type_argument", "call_type_argument")
+# a site kind is visible in a language iff its translator prints it at all (Java / Groovy never print the explicit
+# type arguments of a call: recorded findings)
+PRINTED = {L: [k for k in SITE_KINDS if not (k == "call_type_argument" and L in ("java", "groovy"))]
+           for L in ("java", "kotlin", "groovy", "scala")}
+
+
+def make_specs(rng, n, cap, depths, rounds=None):
     specs = []
     for i in range(n):
         lang = LANGS[i % 4]
         switches = tuple(int(rng.random() < 0.25) for _ in range(4))
         specs.append({"lang": lang, "seed": rng.randrange(1, 1 << 30), "switches": switches,
                       "max_depth": rng.choice(depths), "stages": list(STAGES), "export": True,
-                      "translate": list(LANGS), "cap": cap})
+                      "translate": list(LANGS), "cap": cap, "plugins": [PLUGIN], "c12_rounds": dict(rounds or {})})
     return specs
 
 
@@ -81,9 +112,11 @@ def inv_pairs(inv):
 
 
 # ------------------------------------------------------------------ the code judged against the IR directly
-def judge_text(run, spec, stage, L, text, inv, lit, lit_nodef, found):
-    """S1-S3 on one real text; returns True if something is wrong"""
+def judge_text(run, spec, stage, L, text, inv, lit, lit_nodef, found, e=None, inv_nodef=None, mode="fresh"):
+    """S1-S3 on one real text; returns True if something is wrong.  `mode`: "fresh" = a translator object created
+    for this text, "reused" = the one object that translated the earlier stages of this run (c12_plugin)"""
     bad = False
+    rp = lambda: dict(replay_of(spec, stage), translator_object=mode, c12_rounds=spec.get("c12_rounds"))  # noqa: E731
     toks = cs.tokenize(text)
     run.cov["texts_scanned"] += 1
     # S3
@@ -93,28 +126,30 @@ def judge_text(run, spec, stage, L, text, inv, lit, lit_nodef, found):
         sig = "unbalanced:%s:%s" % (L, b["error"].split()[0])
         if sig not in found:
             found.add(sig)
-            run.violation(dict(replay_of(spec, stage), kind="failing-input", translator=L, leg="S3 balance", detail=b,
+            run.violation(dict(rp(), kind="failing-input", translator=L, leg="S3 balance", detail=b,
                                around=text[max(0, b["pos"] - 100):b["pos"] + 60]), signature=sig)
     # S1
-    exp = cs.expected(L, inv)
+    exp = cs.expected(L, inv_nodef if (L == "java" and inv_nodef is not None) else inv, e)
     got = cs.scan(L, text)
     d, synth = cs.compare(L, exp, got)
+    count_type_names(run, L, exp)
     if synth:
         run.cov["synthetic_declarations"][L] = run.cov["synthetic_declarations"].get(L, 0) + synth
     run.cov["declarations_compared"] += len(exp)
     if d is not None:
         bad = True
-        tag = (d.get("scanned") or d.get("expected") or ["?"])[0]
-        sig = "declarations-differ:%s:%s" % (L, tag)
+        sig = "declarations-differ:%s:%s" % (L, cs.diff_tag(d))
         if sig not in found:
             found.add(sig)
-            run.violation(dict(replay_of(spec, stage), kind="failing-input", translator=L, leg="S1 declarations",
+            run.violation(dict(rp(), kind="failing-input", translator=L, leg="S1 declarations",
                                first_difference=d,
                                note="the declarations recounted in the real text differ from those of the program "
-                                    "(expected: from the IR; scanned: from the text)"), signature=sig)
+                                    "(expected: from the IR, types by name; scanned: from the text)"), signature=sig)
     # Java: the two deviations from "printed iff the program carries it" that DESIGN lists for the Java translator
-    if L == "java":
+    if L == "java" and mode == "fresh":
         java_annotation_legs(run, spec, stage, text, inv, found)
+    if L == "groovy" and mode == "fresh":
+        groovy_annotation_legs(run, spec, stage, text, inv, found)
     # S2
     strs, chrs = cs.text_literals(toks)
     if L == "java":
@@ -136,7 +171,7 @@ def judge_text(run, spec, stage, L, text, inv, lit, lit_nodef, found):
             if sig not in found:
                 found.add(sig)
                 k = next((i for i, (x, y) in enumerate(zip(e, g)) if x != y), min(len(e), len(g)))
-                run.violation(dict(replay_of(spec, stage), kind="failing-input", translator=L, leg="S2 literals",
+                run.violation(dict(rp(), kind="failing-input", translator=L, leg="S2 literals",
                                    first_difference={"index": k, "expected": e[k:k + 2], "in_text": g[k:k + 2],
                                                      "n_expected": len(e), "n_in_text": len(g)}), signature=sig)
     return bad
@@ -172,6 +207,88 @@ def java_annotation_legs(run, spec, stage, text, inv, found):
                                note="calls carrying explicit type arguments (can_infer_type_args False) are printed "
                                     "without them"),
                           signature="java:explicit-call-type-arguments-not-printed")
+
+
+def groovy_annotation_legs(run, spec, stage, text, inv, found):
+    """GroovyTranslator.visit_func_call never prints explicit method type arguments either"""
+    import re
+    targs = [nm for tag, nm, _ in inv if tag == "targs"]
+    if targs:
+        run.cov["groovy_explicit_call_type_arguments"] = run.cov.get("groovy_explicit_call_type_arguments", 0) + len(targs)
+        printed = sum(1 for nm in targs if re.search(r"<[^;(){}]*>\s*%s\(" % re.escape(nm), text))
+        run.cov["groovy_explicit_call_type_arguments_printed"] = \
+            run.cov.get("groovy_explicit_call_type_arguments_printed", 0) + printed
+        if not printed:
+            run.violation(dict(replay_of(spec, stage), kind="failing-input", translator="groovy",
+                               leg="annotation iff (call type arguments)", calls=targs[:5],
+                               note="calls carrying explicit type arguments (can_infer_type_args False) are printed "
+                                    "without them"),
+                          signature="groovy:explicit-call-type-arguments-not-printed")
+
+
+def count_type_names(run, L, exp):
+    c = run.cov["type_names_compared"].setdefault(L, {"by_name": 0, "any_type_accepted": 0})
+    for ev in exp:
+        for k in cs.WILD_KEYS:
+            if ev[2] and k in ev[2]:
+                c["by_name" if ev[2][k] is not None else "any_type_accepted"] += 1
+
+
+def count_site(run, where, sites, langs_judged):
+    """one overwritten program: which declaration TypeOverwriting changed, and in which languages' texts that
+    declaration was compared by name (S1 ran on the text and the language prints that kind of site)"""
+    d = run.cov["overwrite_sites"].setdefault(where, {})
+    if not sites:
+        d["none_or_not_located"] = d.get("none_or_not_located", 0) + 1
+    for s_ in sites or []:
+        d[s_[0]] = d.get(s_[0], 0) + 1
+        for L in langs_judged:
+            if s_[0] in PRINTED[L]:
+                c = run.cov["overwrite_sites_compared"].setdefault(L, {})
+                c[s_[0]] = c.get(s_[0], 0) + 1
+
+
+def judge_rounds(run, spec, r, found):
+    """the extra TypeOverwriting rounds judged inside the worker (c12_plugin): counts and violations"""
+    bad = False
+    pl = (r.get("plugins") or {}).get(PLUGIN) or {}
+    if "error" in pl:
+        raise common.HarnessError("c12_plugin: " + str(pl["error"]))
+    for rec in pl.get("extra", []):
+        base = rec["round"][0]
+        if "skipped" in rec:
+            run.tally("extra_rounds", base + ":skipped(" + rec["skipped"] + ")")
+            continue
+        if "error" in rec:
+            run.tally("extra_rounds", base + ":error:" + rec["error"].split(":")[0])
+            continue
+        run.tally("extra_rounds", base + (":transformed" if rec.get("is_transformed") else ":not-transformed"))
+        run.cov["extra_round_seconds"] = round(run.cov.get("extra_round_seconds", 0) + rec.get("seconds", 0), 1)
+        if not rec.get("is_transformed"):
+            continue
+        langs = rec.get("langs") or {}
+        count_site(run, "extra_rounds_on_" + base, rec.get("site"), list(langs))
+        run.count(dict(replay_of(spec, "overwrite"), round=rec["round"]), nontrivial=bool(rec.get("site")))
+        for L, lr in langs.items():
+            run.cov["texts_scanned"] += 1
+            run.cov["declarations_compared"] += lr.get("n", 0)
+            run.tally("texts_reused_translator", L)
+            for d in lr["diffs"]:
+                bad = True
+                sig = d["signature"]
+                if sig in found:
+                    continue
+                found.add(sig)
+                run.violation(dict(replay_of(spec, "overwrite"), kind="failing-input", translator=L, leg=d["leg"],
+                                   translator_object=d["mode"], round=rec["round"], c12_rounds=spec.get("c12_rounds"),
+                                   overwritten_site=rec.get("site"), error_injected=rec.get("error_injected"),
+                                   reused_text_differs_from_fresh=lr.get("reused_differs"),
+                                   first_difference=d["first_difference"],
+                                   note="extra TypeOverwriting round on a copy of the %s-stage program, translated by "
+                                        "the translator object that had translated the copy before the mutation "
+                                        "(as hephaestus.gen_program does): the declarations recounted in the real "
+                                        "text differ from those of the mutated program" % base), signature=sig)
+    return bad
 
 
 # ------------------------------------------------------------------ model legs
@@ -309,6 +426,7 @@ def run_stream(run, specs, found, label, budget_s=10 ** 6):
     model_diffs, direct_bad, done = [], [], 0
     for spec, r in stream_results(specs, time.time() + budget_s, workers):
         done += 1
+        t_judge = time.time()
         if "cutoff" in r:
             run.tally("pipeline_cutoff", r["cutoff"])
         if "exception" in r:
@@ -322,6 +440,9 @@ def run_stream(run, specs, found, label, budget_s=10 ** 6):
             inv = cs.inventory(e)
             lit = cs.literals(e)
             lit_nodef = cs.literals(e, skip_defaults=True)
+            inv_nodef = cs.inventory(e, skip_defaults=True)
+            reused = st.get("c12_reused") or {}
+            judged = []
             run.count(replay_of(spec, stage), nontrivial=len(inv) > 0)
             run.tally("stages", stage)
             run.tally("program_language", spec["lang"])
@@ -334,14 +455,30 @@ def run_stream(run, specs, found, label, budget_s=10 ** 6):
                 if text is None:
                     continue
                 run.tally("texts", L)
-                if judge_text(run, spec, stage, L, text, inv, lit, lit_nodef, found):
+                if judge_text(run, spec, stage, L, text, inv, lit, lit_nodef, found, e=e, inv_nodef=inv_nodef):
                     direct_bad.append((spec, stage, L))
                 if L == "groovy" and c12_groovy.annotation_legs(run, spec, stage, text, e, inv, found, replay_of):
                     direct_bad.append((spec, stage, L))
+                judged.append(L)
+                # the same translator object across gen -> erase -> overwrite (as hephaestus.gen_program uses it)
+                if L in reused:
+                    run.tally("texts_reused_translator", L)
+                    rt = reused[L]
+                    if isinstance(rt, dict):
+                        run.tally("reused_translator_exception", L + ":" + rt["error"].split(":")[0])
+                    elif rt is not None:
+                        run.tally("reused_translator_text_differs_from_fresh", "%s:%s" % (L, stage))
+                        if judge_text(run, spec, stage, L, rt, inv, lit, lit_nodef, found, e=e, inv_nodef=inv_nodef,
+                                      mode="reused"):
+                            direct_bad.append((spec, stage, L))
                 if L in MODELS:
                     rq = model_requests(L, e)
                     owners.append((L, stage, text, inv, lit, len(batch), len(rq)))
                     batch += rq
+            if stage == "overwrite" and st.get("is_transformed"):
+                count_site(run, "pipeline_overwrite_stage", st.get("c12_site"), judged)
+        if judge_rounds(run, spec, r, found):
+            direct_bad.append((spec, "overwrite", "extra-round"))
         if batch:
             answers = common.run_driver(batch)
             for (L, stage, text, inv, lit, off, n) in owners:
@@ -350,6 +487,8 @@ def run_stream(run, specs, found, label, budget_s=10 ** 6):
                 for leg, detail in model_judge(run, L, answers[off:off + n], text, inv, lit):
                     model_diffs.append((spec, stage, L, leg, detail))
                 run.tally("model_programs_compared", L)
+        run.cov["main_process_judge_seconds"] = round(run.cov.get("main_process_judge_seconds", 0) + time.time() - t_judge, 1)
+        run.cov["worker_seconds"] = round(run.cov.get("worker_seconds", 0) + sum((r.get("times") or {}).values()), 1)
     run.cov["programs_done_within_budget"] = run.cov.get("programs_done_within_budget", 0) + done
     run.log("%s: %d of %d programs within the budget, %d model differences, %d texts with a direct failure"
             % (label, done, len(specs), len(model_diffs), len(direct_bad)))
@@ -377,8 +516,17 @@ def report_model_diffs(run, model_diffs, direct_found):
 def init_cov(run):
     for k in ("texts_scanned", "declarations_compared", "literals_compared", "model_requests"):
         run.cov[k] = 0
-    for k in ("synthetic_declarations", "inventory_tags", "doc_tags_seen"):
+    for k in ("synthetic_declarations", "inventory_tags", "doc_tags_seen", "type_names_compared", "overwrite_sites",
+              "overwrite_sites_compared"):
         run.cov[k] = {}
+    run.cov["overwrite_sites_note"] = (
+        "overwrite_sites: the declaration TypeOverwriting changed (located by comparing the exports before / after), "
+        "per source: the pipeline's own overwrite stage, and the extra rounds of c12_plugin on copies of the gen- / "
+        "erase-stage program (each round is TypeOverwriting's own random choice; nothing is steered).  "
+        "overwrite_sites_compared[L][kind]: sites of that kind whose text in language L was recounted by S1 with the "
+        "NAME of the overwritten type (kinds a language never prints are not counted for it).  type_names_compared: "
+        "type texts compared by name / places where any type text is accepted (Java, Groovy print a type the program "
+        "does not carry: recorded findings)")
     run.cov["modelled_languages"] = trans_models.modelled()
     run.cov["unmodelled_languages"] = [L for L in LANGS if L not in MODELS]
     run.cov["scanned_tags"] = cs.SCANNED
@@ -399,17 +547,25 @@ def check(run):
         witness_badcond_scala(run)
     nprog, cap, budget = (40, 100, 110) if quick else (1000, 150, 1500)
     depths = [3, 4, 4, 5, 5, 6] if quick else [3, 4, 5, 5, 6, 6]   # depth 7 takes minutes per program on a loaded machine
-    specs = make_specs(run.rng, nprog, cap, depths)
+    rounds = ROUNDS_QUICK if quick else ROUNDS_THOROUGH
+    specs = make_specs(run.rng, nprog, cap, depths, rounds)
+    # small programs first: cheap to generate, so that many overwritten sites are reached within the budget
+    nsmall, small_rounds = (40, ROUNDS_SMALL_QUICK) if quick else (600, ROUNDS_THOROUGH)
+    specs = make_specs(run.rng, nsmall, cap, [3], small_rounds) + specs
+    run.cov["extra_overwrite_rounds"] = {"programs": dict(rounds), "small_programs(max_depth 3)": dict(small_rounds),
+                                         "n_small_programs": nsmall}
     model_diffs, direct_bad = run_stream(run, specs, found, "pipeline stream", budget)
-    run.cov["programs"] = nprog
+    run.cov["programs"] = nprog + nsmall
     run.cov["stream_budget_s"] = budget
     run.cov["exhaustive"] = False
     run.cov["rule"] = (
         "case = one (generator replay (lang, seed, switches, max_depth), stage in gen/erase/overwrite); for each case "
-        "the four real translators print the program; every text is judged against the inventory / literal list "
-        "computed from the IR (S1 declarations, S2 literals, S3 balance) and, for a modelled language, compared with "
-        "the Lean doc, inventory and sem (K1-K5); non-trivial = the program has at least one declaration; distinct by "
-        "replay tuple")
+        "the four real translators print the program, each with a fresh translator object and with the one object "
+        "kept across the stages; every text is judged against the inventory / literal list computed from the IR (S1 "
+        "declarations with the names of the types, S2 literals, S3 balance) and, for a modelled language, compared "
+        "with the Lean doc, inventory and sem (K1-K5); plus one case per extra TypeOverwriting round (copy of the "
+        "gen- / erase-stage program, same translator object before and after, S1 + S3); non-trivial = the program "
+        "has at least one declaration (a round: the overwritten site was located); distinct by replay tuple")
     if model_diffs:
         report_model_diffs(run, model_diffs, bool(direct_bad))
     if not proofs_ok and not run.violations:
@@ -430,7 +586,10 @@ def replay(run, rp):
         run.cov["rule"] = "replay of the counterexample witness"
         return
     spec = {"lang": rp["lang"], "seed": rp["seed"], "switches": tuple(rp["switches"]), "max_depth": rp["max_depth"],
-            "stages": list(STAGES), "export": True, "translate": list(LANGS), "cap": 300}
+            "stages": list(STAGES), "export": True, "translate": list(LANGS), "cap": 300, "plugins": [PLUGIN],
+            "c12_rounds": dict(rp.get("c12_rounds") or {})}
+    if spec["c12_rounds"]:
+        spec["c12_rounds"]["budget_s"] = 250
     found = set()
     model_diffs, direct_bad = run_stream(run, [spec], found, "replay")
     run.cov["rule"] = "replay of one generator run (all stages, all four translators)"
